@@ -12,7 +12,7 @@ from . import c18
 
 # clauses that report a construct they found (a write, a computed value), not a pattern they
 # failed to find: the idiom guard of sa/idioms.py does not apply to them
-IDIOM_GUARD_EXEMPT = {"prefixes"}
+IDIOM_GUARD_EXEMPT = {"prefixes", "round-trip", "value-fields", "eq-hash"}
 
 
 def check(ctx, rep, tier):
